@@ -101,7 +101,8 @@ class Contract:
     def __init__(self, func, setup=None, requires=None, ensures=None, raises=None, result=None, modifies=None,
                  loops=None, snapshot=None, inline=(), recursive_by_contract=False, witnesses=None,
                  canaries=None, note="", props=(), generator=False, max_paths=2000, any_raise_ok=False,
-                 concretize=None, rt=None, rt_family=None):
+                 concretize=None, rt=None, rt_family=None, on_raise=None):
+        self.on_raise = on_raise  # (s, ExcClass) -> [(label, term)]: exceptional postconditions proved on every raising path
         self.concretize = concretize
         self.rt = rt
         self.rt_family = rt_family
@@ -212,6 +213,9 @@ class Contract:
                 if not matched and not self.any_raise_ok:
                     ctx.prove(f"no-raise:{E.__name__}@{getattr(interp, 'cur_line', '?')}", z3.BoolVal(False), kind="safety",
                               assume_after=False, meta={"exc": repr(r.exc)})
+                if self.on_raise is not None:
+                    for lab, t in self.labelled(self.on_raise(s, E)):
+                        ctx.prove(f"post-raise:{E.__name__}:{lab}", t, kind="post-raise", assume_after=False)
                 return ("raise", E.__name__)
             s.result = res
             for EC, cond in self.raises.items():
